@@ -34,7 +34,7 @@ package interceptor
 
 // The matcher built for the namespace allow-list flags exactly the names that are not allowed.
 //@ contract createNamespaceAccessControl$1
-//@   shape sig=(name string)( string, bool);loops=;lits=0;fv=
+//@   shape sig=(name string)( string, bool);loops=;lits=0;fv=;outerlits=1
 //@   props C16
 //@   ensures result0 == name
 //@   ensures result1 == (access != nil && !auth.allowedIn(access, name))
@@ -87,7 +87,7 @@ package interceptor
 // C13: names are translated by exact-match lookup only.
 // ---------------------------------------------------------------------------------------------
 //@ contract createStringMatcher$1
-//@   shape sig=(name string)( string, bool);loops=;lits=0;fv=
+//@   shape sig=(name string)( string, bool);loops=;lits=0;fv=;outerlits=1
 //@   props C13 C14
 //@   ensures result1 == (name in mapping)
 //@   ensures result1 ==> result0 == mapping[name]
@@ -121,7 +121,7 @@ package interceptor
 
 // The search-attribute translator applies to every method except the workflow service (its responses carry aliases).
 //@ contract NewSearchAttributeTranslator$1
-//@   shape sig=(method string)( bool);loops=;lits=0;fv=
+//@   shape sig=(method string)( bool);loops=;lits=0;fv=;outerlits=1
 //@   props C14
 //@   ensures result == !hasPrefix(method, api.WorkflowServicePrefix)
 //@   assigns nothing
@@ -219,7 +219,7 @@ package interceptor
 //@ extern visitNamespace@visitNamespace$1(logger, obj, match)
 //@   assigns *
 //@ contract visitNamespace$1
-//@   shape sig=(vwp visit.ValueWithParent)( visit.Action, error);loops=range;lits=0;fv=match
+//@   shape sig=(vwp visit.ValueWithParent)( visit.Action, error);loops=range;lits=0;fv=match;outerlits=1
 //@   props C13 C16
 //@   pure match
 //@   counts Assign
@@ -245,7 +245,7 @@ package interceptor
 //@ extern translateIndexedFields@visitSearchAttributes$1(fields, match)
 //@   assigns nothing
 //@ contract visitSearchAttributes$1
-//@   shape sig=(vwp visit.ValueWithParent)( visit.Action, error);loops=;lits=0;fv=
+//@   shape sig=(vwp visit.ValueWithParent)( visit.Action, error);loops=;lits=0;fv=;outerlits=1
 //@   props C14
 //@   pure match
 //@   ensures @skip_only_where_handled: result0 == visit.Skip ==>
